@@ -235,20 +235,6 @@ def SparesPath (cfg : Cfg) (flt : Faults) (ts : List Task) (p : Path) : Prop :=
 theorem sparesPath_noFaults (cfg : Cfg) (ts : List Task) (p : Path) : SparesPath cfg noFaults ts p :=
   fun t _ _ => faultOf_noFaults cfg t
 
-theorem planEntry_payload_dir {cfg : Cfg} {dst : Map DNode} {e : SEntry} (h : e.kind = .dir) :
-    (planEntry cfg dst e).payload = .dir := by unfold planEntry; simp [h]
-
-theorem planEntry_kind_of_payload_dir {cfg : Cfg} {dst : Map DNode} {e : SEntry}
-    (h : (planEntry cfg dst e).payload = .dir) : e.kind = .dir := by
-  unfold planEntry at h
-  split at h
-  · assumption
-  · cases h
-  · split at h
-    · cases h
-    · split at h <;> cases h
-    · split at h <;> cases h
-
 /-- the state along the path of a selected entry just before its task, under a sparing plan -/
 theorem pre_state_along {cfg : Cfg} (flt : Faults) {scan : List SEntry} {dst : Map DNode} (n : Nat)
     (hu : UniqueRels scan) (hc : ParentClosed scan) (hroot : cfg.delete = true → dst.get? [] = none)
@@ -373,7 +359,7 @@ theorem taskOk_transfer {cfg : Cfg} (hdry : cfg.dryRun = false) (f1 f2 : Faults)
         rw [planEntry_rel]
         have hk : e.kind ≠ .dir := fun h => by rw [planEntry_payload_dir h] at hpl; cases hpl
         rcases O2 with o2 | ⟨_, _, k⟩
-        · rw [o2]; exact planEntry_create_none hcr
+        · rw [o2]; exact planEntry_create_none hk hcr
         · exact absurd k hk
       · -- registered first paths hold regular files (the hard-link map invariant)
         have hl : LinkOK cfg (plan cfg scan dst) (pre.foldl (execTask cfg f2) (initExec dst n)).w
